@@ -4,6 +4,7 @@ point-in-polygon, point-to-segment distance, edge table).
 
 Contracts (plain functions, counted separately):
   contract_area       total plan area unchanged (own shoelace over node positions AND the library's stored column areas)
+  contract_positive   every column counter-clockwise with positive area (no degenerate piece)
   contract_volume     total rock volume unchanged (own column formula AND sum of block_volume over block_name_list)
   contract_tiling     every sampled point of every changed old column lies in exactly one new column; that column
                       lies inside the old one and inherits its surface elevation and layer count
@@ -176,9 +177,17 @@ def contract_area(before, geo):
     if not close(a_own, before.area_own): out.append('sum of polygon areas %.12g, before %.12g' % (a_own, before.area_own))
     if not close(a_lib, before.area_lib): out.append('geo.area %.12g, before %.12g' % (a_lib, before.area_lib))
     if not out and not close(a_lib, a_own): out.append('geo.area %.12g but the polygons cover %.12g' % (a_lib, a_own))
-    bad = [c.name for c in geo.columnlist if not shoelace([n.pos for n in c.node]) > 0]
-    if bad: out.append('columns %r are not counter-clockwise with positive area' % (bad[:4],))
     return (not out), out
+
+
+def contract_positive(geo):
+    """every column is a counter-clockwise polygon of positive area (no degenerate / inverted piece)"""
+    bad = []
+    for c in geo.columnlist:
+        P = np.array([n.pos for n in c.node], dtype=float)
+        per = float(np.sum(np.hypot(*(np.roll(P, -1, axis=0) - P).T)))
+        if not shoelace(P) > 1e-10 * per * per: bad.append((c.name, [n.name for n in c.node]))
+    return (not bad), ['columns %r are degenerate or inverted (area <= 0)' % (bad[:4],)] if bad else []
 
 
 def contract_volume(before, geo):
@@ -552,6 +561,9 @@ def evaluate(geo, op, base, npts, rs, rec, check_unchanged=True):
     rec.count('area')
     ok, out = contract_area(before, geo)
     if not ok: rec.fail('area', op, base, '; '.join(out), calls); ok_all = False
+    rec.count('positive')
+    ok, out = contract_positive(geo)
+    if not ok: rec.fail('degenerate', op, base, '; '.join(out), calls); ok_all = False
     rec.count('volume')
     ok, out = contract_volume(before, geo)
     if not ok: rec.fail('volume', op, base, '; '.join(out), calls); ok_all = False
@@ -862,7 +874,7 @@ def main():
             per[cls] = per.get(cls, 0) + 1; seenkeys.add(f['key']); kept.append(f)
     for f in kept: del f['size']
     kept.sort(key=lambda f: f['key'])
-    contracts = ('completes', 'area', 'volume', 'tiling', 'conform', 'progress', 'layers')
+    contracts = ('completes', 'area', 'positive', 'volume', 'tiling', 'conform', 'progress', 'layers')
     samples.append({'contract_evaluations': counts, 'cases': ncases, 'tasks_truncated_by_time_budget': truncated,
                     'worker_cpu_seconds': round(sum(r.cpu for r in results.values()), 1), 'sample_points_per_changed_column': npts,
                     'failure_classes(category op: count)': dict(sorted(classes.items()))})
